@@ -278,7 +278,10 @@ class Gen:
             r.shuffle(idx)
             members = idx[:r.choice([1, 2, 2, 3])]
             for j in members:
-                items[first_arg + j] = items[first_arg + j][:-1] + " (grp %s))" % hexs(gid)
+                # (sometimes the group twice on one argument: the member is pushed twice, unroll_args_in_group's
+                # `contains` check writes it once)
+                twice = " " + hexs(gid) if r.random() < 0.25 else ""
+                items[first_arg + j] = items[first_arg + j][:-1] + " (grp %s%s))" % (hexs(gid), twice)
             self.count("groups")
             want_global = bool(self.opt("global_group"))
             if want_global:
@@ -1310,11 +1313,10 @@ LEVEL_NOTE = LEVEL_NOTE.replace("Partial: zsh/fish/nushell have no generator mod
 AREAS = AREAS + ["zsh"]
 TRUSTED = TRUSTED + [
     "zsh generator model: extraction of Complete/ZshModel.v (+ FishModel.v's text decoration and dbuild; ExtrOcamlBasic "
-    "only), driver ocaml/zsh_driver.ml (readers of the aot and aottext spec formats; Arg::blacklist = conflicts_with is a "
-    "parameter of the model -- a function (owning command, argument) -> ids -- that the driver supplies from the (cx ..) "
-    "items of the spec: keyed by the bin name of the command, a propagated global argument reads the entry of the nearest "
-    "ancestor that declares it); value_names, value_terminator, last, argument groups and conflicts ON global arguments "
-    "are outside the model (no spec format expresses them)",
+    "only), driver ocaml/zsh_driver.ml (readers of the aot and aottext spec formats; since round 4 value_names, "
+    "value_terminator, last, Arg::blacklist = conflicts_with and Arg::groups are fields of AotTree.arg read from the "
+    "(vn ..) (term ..) (last) (cx ..) (grp ..) items by all six drivers; argument groups are modelled as _build_self makes "
+    "them from Arg::group(s), explicit ArgGroup declarations and Arg::index are outside the model)",
 ]
 
 ZSH_NAME_BYTES = ["'", "\\", ",", "$", "#", " ", "\"", "`", "(", ")", ";", "\t", "é", "%", "~", "*", "=", "\n", "-", "_",
@@ -1471,3 +1473,52 @@ LEVEL_NOTE = LEVEL_NOTE.replace(
     "admits at most one without `last`); the bash value branch is proved on the model of bash's reading of the script "
     "(validated under the installed bash on every run, incl. the Other/DirPath witnesses in corpus/C16); ")
 # ---- end round 3 ----
+
+# ---- round 4: value_names, value_terminator, last, conflicts over groups, the expect of get_arg_conflicts_with ----
+RULE = RULE + ("  Round 4: in every stream arguments also carry value names (options: one or two, with a blank or colon; "
+               "positionals: one), value terminators on multi-valued positionals, last(true) on the final positional, a "
+               "multi-valued positional before a last one (with / without terminator), argument groups (Arg::groups) and "
+               "conflicts_with naming a group (also twice, also beside argument ids); the zsh-model stream has a dense plan of "
+               "these and a plan of the family zsh-global-conflicts-group (a global argument conflicting with a group).")
+TECHNIQUE = TECHNIQUE + ("; round 4: the model's argument record extended by value_names, value_terminator, last, blacklist and "
+                         "groups (other five generator models and their proofs untouched), zsh's get_arg_conflicts_with with "
+                         "groups and with its panic sites as visible failures, every zsh theorem re-proved, the class kept by "
+                         "Command::build from the user's tree")
+LEVEL_TEXT = (LEVEL_TEXT +
+              "  Round 4 (zsh reads value_names, value_terminator, last, conflicts_with over argument groups): the argument "
+              "record of the model carries these fields (read from new spec items by the harness and all six drivers; every "
+              "generated stream uses them; the six models stay byte-identical with the real generators), Arg::_build's "
+              "num_args from value names and the positional placeholder with value names included.  zsh: every line of an option "
+              "that requires a value carries :vn: with the FIRST value name (C16_zsh_option_value_name); write_positionals_of "
+              "exactly, with last and terminators: the catch-all is the first multi-valued positional without terminator of a "
+              "command without subcommands, one with terminator t is written *t: through escape_value, after the catch-all "
+              "multi-valued AND last positionals are skipped, and a last positional has its line iff no catch-all precedes it "
+              "(C16_zsh_positionals_exact / _kept / _last / _valid).  Command::get_arg_conflicts_with is modelled with its "
+              "failure sites (panic! on an id that is neither argument nor group; expect in the global branch): an entry naming "
+              "an argument resolves to it, an entry naming a GROUP to the members of the group in argument order (argument ids "
+              "pairwise distinct), the nested-group branch and the expect on members are dead, an entry resolves iff it names an "
+              "argument or a group (C16_zsh_conflicts_groups); the exclusion list of a non-global argument is the spellings of "
+              "what its entries resolve to, in blacklist order (C16_zsh_conflicts_list).  The generator fails ONLY through a bin "
+              "name or an unresolvable conflict (C16_zsh_args_fail_only_on_conflicts); in the local boolean class (every entry "
+              "of an option / flag names an argument of its command or, if the option is not global, a group of it) nothing "
+              "panics and, with exact lookup, a script is written (C16_zsh_total_local).  The boundary is a finding: clap's "
+              "configuration check accepts a GLOBAL argument that conflicts with a GROUP, get_global_arg_conflicts_with looks "
+              "among arguments only and expects -- a one-node tree for which no script is written, whatever the texts "
+              "(C16_zsh_global_conflicts_group_refuted; the real generator panics; recorded as zsh-global-conflicts-group).  "
+              "From the USER's tree: Command::build keeps the class 'an argument that declares conflicts is not global and its "
+              "entries name arguments or groups of its command' (it only appends arguments with empty blacklists) and that class "
+              "gives the local class at every built node, so exact lookup, dispatch, coverage and totality hold for the file "
+              "generate writes for trees WITH conflicts (C16_zsh_build_keeps_conflicts_class, C16_zsh_generate_ok_conflicts); the "
+              "six-generator statements take the same class.  All earlier zsh theorems are re-proved on the extended model.")
+LEVEL_NOTE = LEVEL_NOTE.replace(
+    "zsh: conflicts_with is a parameter of the "
+    "model (the exclusion lists are compared byte for byte, their order is pinned by C16_zsh_conflicts_list), "
+    "value_names, value_terminator, last, groups and conflicts on global arguments are outside the model, ",
+    "zsh: value_names, value_terminator, last, conflicts_with (also over argument groups) are in the model since round 4 "
+    "(groups as _build_self makes them from Arg::group(s); explicit ArgGroup declarations and Arg::index are not), the "
+    "panic sites of get_arg_conflicts_with are visible failures excluded by a local boolean class (a global argument "
+    "conflicting with a group is outside it: the recorded finding zsh-global-conflicts-group); from the user's tree the class "
+    "asks conflict-declaring arguments to be non-global; two value names on a positional are not generated (the bash "
+    "semantics model has one opts word per positional); ")
+assert "since round 4" in LEVEL_NOTE
+# ---- end round 4 ----
